@@ -19,6 +19,21 @@ if REPO not in sys.path[:1]:
 # program: the library's loggers are set to DEBUG and feed a handler that formats every record and drops it.
 
 
+REENTRY = {"on": False, "inside": False, "ref": None, "mismatch": None, "calls": 0}
+_REENTRY_DOC = '@string{rs = "rv"}\n@misc{r1, author = {Cy Dow and Al Eck}, w = rs, month = 2}\n@misc{r1, dup = 1}\n@broken{r2, a b}\ntext\n@c{r3, q = {4}, q = {5}}\n@d{open, x = {'
+
+
+def reentry_probe():
+    """A complete use of the library, as a logging handler of the application might make it while another call is running:
+    parse a document that has failed, duplicate and unterminated blocks, sort and write it."""
+    import bibtexparser as bp
+    from bibtexparser import middlewares as mw
+
+    lib = bp.parse_string(_REENTRY_DOC, append_middleware=[mw.SeparateCoAuthors(), mw.MonthLongStringMiddleware()])
+    text = bp.write_string(lib, prepend_middleware=[mw.MergeCoAuthors(), mw.SortBlocksByTypeAndKeyMiddleware()])
+    return ([(type(b).__name__, getattr(b, "key", None), b.start_line, b.raw) for b in lib.blocks], text)
+
+
 class _FormatAndDrop(logging.Handler):
     formatted = 0
 
@@ -28,6 +43,20 @@ class _FormatAndDrop(logging.Handler):
             _FormatAndDrop.formatted += 1
         except Exception:
             pass  # (a record that cannot be formatted is the logging module's business: handleError, no exception)
+        if REENTRY["on"] and not REENTRY["inside"]:
+            # the handler uses the library itself (environment 'a logging handler that uses the library'): a second call in
+            # flight at every log statement of the call that is running
+            REENTRY["inside"] = True
+            try:
+                got = reentry_probe()
+                REENTRY["calls"] += 1
+                if got != REENTRY["ref"] and REENTRY["mismatch"] is None:
+                    REENTRY["mismatch"] = {"observed": repr(got)[:600], "during_record": str(record.msg)[:120], "logger": record.name}
+            except BaseException as e:  # noqa
+                if REENTRY["mismatch"] is None:
+                    REENTRY["mismatch"] = {"observed": f"raised {type(e).__name__}: {e}"[:300], "during_record": str(record.msg)[:120], "logger": record.name}
+            finally:
+                REENTRY["inside"] = False
 
 
 _lg = logging.getLogger("bibtexparser")
